@@ -39,7 +39,8 @@ Tags(conds) == { c[2] : c \in { x \in conds : x[1] } }
 NoCfg == [secrets |-> <<>>, users |-> <<>>, deny |-> <<>>, allow |-> <<>>]
 NoReq == [c |-> -1, sid |-> <<>>, hdr |-> [maj |-> 0, min |-> 0, ty |-> 0, seq |-> 0, fl |-> 0, sid |-> <<>>, len |-> <<>>], b |-> <<>>, l |-> 0]
 ObsInit == [req |-> NoReq, pend |-> FALSE, wr |-> 0, inv |-> 0, sinks |-> <<>>,
-            t |-> << >>, reps |-> << >>, nfeed |-> << >>, iso |-> {}, bad |-> {}, noisy |-> FALSE, overlap |-> FALSE, acctpend |-> FALSE, acctdone |-> FALSE, acctb |-> <<>>]
+            t |-> << >>, reps |-> << >>, nfeed |-> << >>, iso |-> {}, bad |-> {}, noisy |-> FALSE, overlap |-> FALSE, acctpend |-> FALSE, acctdone |-> FALSE, acctb |-> <<>>,
+            ofeeds |-> <<>>, osinks |-> <<>>, oack |-> {}, ojudged |-> FALSE]
 EmptyFn == [x \in {} |-> 0]
 
 \* the secret configuration a connection is bound to (0 = refused), per the Admission oracle
@@ -106,7 +107,10 @@ ObsWr(e) ==
           << o.pend /\ r.hdr.ty = 2 /\ t.stage = "idle" /\ d.ok /\ ScopeIdx(r.c) > 0
              /\ AuthzViolation(cfg, scope, r.b, d.v), "C11" >> })
    IN IF o.overlap
-      THEN [o EXCEPT !.wr = @ + 1, !.reps = Put(@, << e.c, w.sid >>, Append(Get(@, << e.c, w.sid >>, <<>>), b))]
+      THEN [o EXCEPT !.wr = @ + 1, !.reps = Put(@, << e.c, w.sid >>, Append(Get(@, << e.c, w.sid >>, <<>>), b)),
+                     \* accounting requests acknowledged while requests of several connections are in flight (judged at the end)
+                     !.oack = IF ~o.ojudged /\ lenok /\ w.ty = 3 /\ Dec("AcctReply", clr).ok /\ Dec("AcctReply", clr).v.status = 1
+                              THEN @ \cup { << e.c, w.sid >> } ELSE @]
       ELSE IF o.pend /\ o.inv = 0
       THEN \* written by the reader, not by a handler: the key-mismatch error packet (judged by C19 in the server family)
            [o EXCEPT !.wr = @ + 1, !.reps = Put(@, key, Append(Get(@, key, <<>>), b))]
@@ -149,6 +153,26 @@ IsoTags == Tags({ << \E p \in o.iso :
                             na == Get(o.nfeed, << p.of, p.sid >>, 0)   nb == Get(o.nfeed, << p.c, p.sid >>, 0)
                         IN IF na = nb THEN a # b ELSE ~(IsPrefix(a, b) \/ IsPrefix(b, a)), "C09" >> })
 
+\* ---- C12 with requests of several connections in flight together: acknowledged requests and sink records are
+\* compared as bags once every connection has closed (a record may be written while another handler is still inside
+\* the sink, so "before the reply" can only be judged per request in the sequential scenarios)
+AcctProj(b) == LET q == Dec("AcctRequest", b) IN
+   IF q.ok THEN << q.v.flags, q.v.method, q.v.priv, q.v.atype, q.v.service, q.v.user, q.v.port, q.v.raddr, q.v.args >> ELSE << >>
+OverlapAcctTags ==
+   LET F == { i \in 1..Len(o.ofeeds) : o.ofeeds[i].ty = 3 /\ Dec("AcctRequest", o.ofeeds[i].b).ok /\ ScopeIdx(o.ofeeds[i].c) > 0 }
+       Key(i) == << o.ofeeds[i].c, o.ofeeds[i].sid >>
+       Once(i) == Get(o.nfeed, Key(i), 0) = 1
+       File(i) == LET u == Dec("AcctRequest", o.ofeeds[i].b).v.user  sn == ScopeName(o.ofeeds[i].c) IN
+                  HasUser(cfg, sn, u) /\ EffAcct(TheUser(cfg, sn, u)) /\ AcctKind(TheUser(cfg, sn, u)) # "syslog"
+       A == { i \in F : Once(i) /\ File(i) /\ Key(i) \in o.oack }
+       S == 1..Len(o.osinks)
+       M(i) == { j \in S : RecordMatches(o.osinks[j], o.ofeeds[i].b) }
+       SameA(i) == { k \in A : AcctProj(o.ofeeds[k].b) = AcctProj(o.ofeeds[i].b) }
+       SameF(i) == { k \in F : AcctProj(o.ofeeds[k].b) = AcctProj(o.ofeeds[i].b) }
+   IN Tags({ << \E i \in A : Cardinality(M(i)) < Cardinality(SameA(i)), "C12" >>,                      \* acknowledged, but its record is not in the sink
+             << \E i \in A : (\A k \in SameF(i) : Once(k)) /\ Cardinality(M(i)) > Cardinality(SameF(i)), "C12" >>,   \* more records than requests
+             << \E j \in S : \A i \in F : ~RecordMatches(o.osinks[j], o.ofeeds[i].b), "C12" >> })      \* a record no request asked for
+
 \* ---- C13: admission ----------------------------------------------------------
 LookupTags(e, a) ==
    LET k == Admit(cfg, a) IN
@@ -185,6 +209,7 @@ Next ==
              /\ LET h == DecHeader(e.h).v  key == << e.c, h.sid >> IN
                 o' = [o EXCEPT !.acctpend = FALSE, !.acctdone = FALSE, !.req = [c |-> e.c, sid |-> h.sid, hdr |-> h, b |-> ClrTab[l], l |-> l],
                                !.pend = TRUE, !.wr = 0, !.inv = 0, !.sinks = <<>>,
+                               !.ofeeds = IF o.overlap /\ ~o.ojudged THEN Append(@, [c |-> e.c, sid |-> h.sid, ty |-> h.ty, b |-> ClrTab[l]]) ELSE @,
                                !.nfeed = Put(@, key, Get(@, key, 0) + 1)]
              /\ UNCHANGED << sc, cfg, conns, ms, div >>
         [] e.e = "inv" ->
@@ -197,6 +222,11 @@ Next ==
              \* requests of several connections are in flight together: replies are only collected per (connection, session)
              \* and compared with the isolated re-runs at the end (C09); crash-freedom and log hygiene stay judged
              /\ o' = [o EXCEPT !.noisy = TRUE, !.overlap = TRUE]
+             /\ UNCHANGED << sc, cfg, conns, ms, div >>
+        [] e.e = "g" ->
+             \* every connection of the scenario has closed (the isolated re-runs of C09 follow)
+             /\ LET new == IF o.overlap /\ ~o.ojudged /\ e.at = "end" THEN OverlapAcctTags ELSE {}
+                IN o' = [o EXCEPT !.bad = @ \cup new, !.ojudged = @ \/ e.at = "end"] /\ Report(new \ o.bad, e)
              /\ UNCHANGED << sc, cfg, conns, ms, div >>
         [] e.e = "feedraw" ->
              /\ o' = [o EXCEPT !.noisy = TRUE, !.pend = FALSE]
@@ -211,7 +241,8 @@ Next ==
                     new == Tags({ << late /\ ~RecordMatches(d, o.acctb), "C12" >>,
                                   << sys /\ o.acctdone, "C12" >>,                                \* a second record for an acknowledged request
                                   << ~sys /\ ~o.pend /\ ~o.noisy, "C12" >> })                    \* a record nobody asked for
-                IN /\ o' = [o EXCEPT !.sinks = IF sys THEN @ ELSE Append(@, d), !.acctpend = IF late THEN FALSE ELSE @,
+                IN /\ o' = [o EXCEPT !.osinks = IF ~sys /\ o.overlap /\ ~o.ojudged THEN Append(@, d) ELSE @,
+                                     !.sinks = IF sys THEN @ ELSE Append(@, d), !.acctpend = IF late THEN FALSE ELSE @,
                                      !.acctdone = IF late THEN TRUE ELSE @, !.bad = @ \cup new]
                    /\ Report(new \ o.bad, e)
              /\ UNCHANGED << sc, cfg, conns, ms, div >>
